@@ -93,6 +93,13 @@ M = [
  ('der-drops-dt', 'stage.py', 'vertcat(ode(x=self.x, u=self.u, z=self.z, p=vertcat(self.p, self.v), t=self.t)["ode"], 1, *der_symbols))', 'vertcat(ode(x=self.x, u=self.u, z=self.z, p=vertcat(self.p, self.v), t=self.t)["ode"], 0, *der_symbols))', ['C16']),
  ('der-ode-at-t0', 'stage.py', '                return jtimes(expr, self.x, ode(x=self.x, u=self.u, z=self.z, p=vertcat(self.p, self.v), t=self.t)["ode"])', '                return jtimes(expr, self.x, ode(x=self.x, u=self.u, z=self.z, p=vertcat(self.p, self.v), t=0)["ode"])', ['C16']),
  ('chain-order', 'stage.py', "            helper_u = self.control(n_rows=n_rows, n_cols=n_cols, order=order - 1, scale=scale)", "            helper_u = self.control(n_rows=n_rows, n_cols=n_cols, order=max(order - 2,0), scale=scale)", ['C16']),
+ # --- C10
+ ('guess-column-shift', 'sampling_method.py', "                if target.numel()*(self.N)==value.numel() or target.numel()*(self.N+1)==value.numel():\n                    value_k = value[:,k]\n                try:", "                if target.numel()*(self.N)==value.numel() or target.numel()*(self.N+1)==value.numel():\n                    value_k = value[:,max(k-1,0)] if k>=0 else value[:,k]\n                try:", ['C10']),
+ ('guess-second-pass-missing', 'sampling_method.py', "            self.set_initial(stage, opti, stage._initial) # Redo this: ocp.t is correct only now\n", "", ['C10']),
+ ('dc-root-guess-time', 'direct_collocation.py', "expr_integrator_root = ca.hcat([self.eval_at_integrator_root(stage, expr, k, i, j) for k in list(range(self.N)) for i in range(self.M) for j in range(self.degree) ])", "expr_integrator_root = ca.hcat([self.eval_at_integrator_root(stage, expr, k, i, 0) for k in list(range(self.N)) for i in range(self.M) for j in range(self.degree) ])", ['C10']),
+ ('priority-order', 'stage.py', "            if priority:\n                self._initial.move_to_end(var, last=False)", "            if False:\n                self._initial.move_to_end(var, last=False)", []),
+ ('setinitial-after-ignored', 'stage.py', "        if self.master is not None and self.master.is_transcribed:\n            self._method.set_initial(self._augmented, self.master._method, self._initial)", "        if self.master is not None and self.master.is_transcribed and False:\n            self._method.set_initial(self._augmented, self.master._method, self._initial)", ['C10']),
+ ('free-T-guess-shift', 'direct_method.py', "                stage.set_initial(stage._T, init,priority=True)\n                return stage._T", "                stage.set_initial(stage._T, init*1.5,priority=True)\n                return stage._T", ['C10']),
 ]
 
 def main():
